@@ -247,3 +247,13 @@ pub fn stats() -> crate::sim::Stats {
     let g = sim.lock();
     g.stats.clone()
 }
+
+/// Innermost `scope` label of another thread (what is it doing?), and whether it has finished.
+pub fn thread_scope(tid: u32) -> (Option<String>, bool) {
+    let (sim, _) = ctx();
+    let g = sim.lock();
+    match g.threads.get(tid as usize) {
+        Some(t) => (t.scopes.last().cloned(), t.state == TState::Finished),
+        None => (None, true),
+    }
+}
